@@ -231,6 +231,15 @@ def check_dfa_history(ctx, ddef, hist, other_defs, tag):
                     if empty_lang:
                         ctx.tally("iter_on_empty_language_both_behaviours_accepted")
                         continue
+                if q[0] == "random" and got[0] == "ok" and ms[0] == "ok":
+                    # which accepted word a given seed produces is not fixed by C13/C20 (only membership, uniformity
+                    # and history independence are; the latter is checked against the fresh copy above): a
+                    # different sampling scheme is a structural difference from the mirror model
+                    ctx.structural += 1
+                    ctx.tally("random_word_mapping_differs_from_mirror_model")
+                    if len(got[1]) != q[1] or not mk_dfa(ddef).accepts_input(sy.unword(got[1])):
+                        problems.append(f"query #{i} {q}: random_word returned {got!r:.100}, not an accepted word of that length")
+                    continue
                 problems.append(f"query #{i} {q}: implementation {got!r:.200}, model {ms!r:.200}")
         ctx.tally("q_" + q[0])
     touching = sum(1 for q in hist if q[0] in CACHE_QUERIES)
